@@ -14,6 +14,20 @@ use dicom_core::value::PrimitiveValue;
 use serde_json::{json, Value};
 use vcommon::*;
 
+/// keep at most 3 full mismatch records per distinct fingerprint (all are counted)
+trait MismatchFp {
+    fn mismatch_fp(&mut self, v: Value);
+}
+impl MismatchFp for Report {
+    fn mismatch_fp(&mut self, v: Value) {
+        self.mismatch_count += 1;
+        let same = self.mismatches.iter().filter(|m| m["fp"] == v["fp"]).count();
+        if same < 3 && self.mismatches.len() < self.cap {
+            self.mismatches.push(v);
+        }
+    }
+}
+
 fn cps(s: &str) -> Vec<u32> {
     s.chars().map(|c| c as u32).collect()
 }
@@ -103,14 +117,14 @@ fn replay(cases: &str, _out: &str) {
         }
         for via in ["builder", "value"] {
             match observe(&comps, via) {
-                Err(msg) => rep.mismatch(json!({"fp": format!("panic formatting/parsing a person name ({via})"),
+                Err(msg) => rep.mismatch_fp(json!({"fp": format!("panic formatting/parsing a person name ({via})"),
                     "presence": presence(&comps), "case": case, "panic": msg})),
                 Ok((text, back, same)) => {
                     if text != exp_text {
-                        rep.mismatch(json!({"fp": format!("to_dicom_string differs from ToText ({via}) presence={}", presence(&comps)),
+                        rep.mismatch_fp(json!({"fp": format!("to_dicom_string differs from ToText ({via}) presence={}", presence(&comps)),
                             "case": case, "got_text": cps_json(&text)}));
                     } else if back != exp_back || !same {
-                        rep.mismatch(json!({"fp": format!("from_text(to_dicom_string) differs from the components ({via}) presence={}", presence(&comps)),
+                        rep.mismatch_fp(json!({"fp": format!("from_text(to_dicom_string) differs from the components ({via}) presence={}", presence(&comps)),
                             "case": case, "got_back": parts_json(&back), "struct_equal": same}));
                     }
                 }
@@ -119,10 +133,10 @@ fn replay(cases: &str, _out: &str) {
         // parse of the text expected by the specification, independent of the printer
         let exp_text2 = exp_text.clone();
         match catch(move || parts(&PersonName::from_text(&exp_text2))) {
-            Err(msg) => rep.mismatch(json!({"fp": "panic in from_text", "case": case, "panic": msg})),
+            Err(msg) => rep.mismatch_fp(json!({"fp": "panic in from_text", "case": case, "panic": msg})),
             Ok(back) => {
                 if back != exp_back {
-                    rep.mismatch(json!({"fp": format!("from_text(ToText) differs from FromText presence={}", presence(&comps)),
+                    rep.mismatch_fp(json!({"fp": format!("from_text(ToText) differs from FromText presence={}", presence(&comps)),
                         "case": case, "got_back": parts_json(&back)}));
                 }
             }
